@@ -1403,6 +1403,28 @@ Proof.
     injection H2 as <-. eexists; split; reflexivity.
 Qed.
 
+Lemma setr_setr0 r cur a1 a2 x x1 x2 :
+  setr r cur a1 x = Some x1 -> setr r cur a2 x1 = Some x2 -> setr r cur a2 x = Some x2.
+Proof.
+  intros H1 H2. destruct r; simpl in *.
+  - destruct cur as [i|]; [|discriminate]. destruct (upd i a1 (pop x)) as [l1|] eqn:E1; [|discriminate]. injection H1 as <-.
+    simpl in H2. rewrite (upd_upd _ _ _ _ _ E1) in H2. destruct (upd i a2 (pop x)) as [l2|]; [|discriminate].
+    injection H2 as <-. reflexivity.
+  - destruct (nth_error (idx x) v) as [i|] eqn:Ei; [|discriminate].
+    destruct (upd i a1 (pop x)) as [l1|] eqn:E1; [|discriminate]. injection H1 as <-.
+    simpl in H2. rewrite Ei in H2. rewrite (upd_upd _ _ _ _ _ E1) in H2. destruct (upd i a2 (pop x)) as [l2|]; [|discriminate].
+    injection H2 as <-. reflexivity.
+  - destruct (length (pop x)) as [|m] eqn:El; [discriminate|].
+    destruct (upd m a1 (pop x)) as [l1|] eqn:E1; [|discriminate]. injection H1 as <-.
+    simpl in H2. rewrite (upd_length _ _ _ _ E1), El in H2. rewrite (upd_upd _ _ _ _ _ E1) in H2.
+    destruct (upd m a2 (pop x)) as [l2|]; [|discriminate]. injection H2 as <-. reflexivity.
+  - injection H1 as <-. injection H2 as <-. reflexivity.
+  - injection H1 as <-. injection H2 as <-. reflexivity.
+  - destruct cur as [i|]; [|discriminate]. destruct (upd i a1 (sh x)) as [l1|] eqn:E1; [|discriminate]. injection H1 as <-.
+    simpl in H2. rewrite (upd_upd _ _ _ _ _ E1) in H2. destruct (upd i a2 (sh x)) as [l2|]; [|discriminate].
+    injection H2 as <-. reflexivity.
+Qed.
+
 Lemma getr_with_next r cur x n : getr r cur (with_next x n) = getr r cur x.
 Proof. destruct r; reflexivity. Qed.
 
@@ -1427,6 +1449,26 @@ Section PAIR.
     unfold ret in H2. injection H2 as <- <- <-.
     destruct (setr_setr _ _ _ _ _ _ _ _ E1 E2) as (x3 & E3 & ->).
     exists cs, od, x3. repeat split; auto.
+  Qed.
+  (* the same two copies in the other order *)
+  Lemma pair_sem_rev d s cur o x x' evs o' : alias d s = false ->
+    exec cur (Seq (CopyFit d s) (CopyPos d s)) o x = Some (x', evs, o') ->
+    exists cs od x3, getr s cur x = Some cs /\ getr d cur x = Some od /\
+      setr d cur {| apos := apos cs; aid := next x; afit := afit cs |} x = Some x3 /\
+      x' = with_next x3 (S (next x)) /\ evs = [] /\ o' = o.
+  Proof.
+    intros Hal H. simpl in H. apply bind_some in H as (x1 & e1 & o1 & e2 & H1 & H2 & ->).
+    destruct (getr d cur x) as [od|] eqn:Ed; [|discriminate].
+    destruct (getr s cur x) as [cs|] eqn:Es; [|discriminate].
+    destruct (setr d cur _ x) as [y1|] eqn:E1; [|discriminate]. unfold ret in H1. injection H1 as <- <- <-.
+    rewrite (getr_setr_same _ _ _ _ _ E1) in H2.
+    rewrite (getr_setr_other _ _ _ _ _ _ E1 Hal), Es in H2. simpl in H2.
+    destruct (setr d cur _ y1) as [y2|] eqn:E2; [|discriminate].
+    unfold ret in H2. injection H2 as <- <- <-.
+    assert (Hn : next y1 = next x).
+    { apply setr_written in E1. destruct E1 as [_ -> | _ -> | ? ? _ _ _ -> | ? ? _ _ _ ->]; reflexivity. }
+    rewrite Hn in *. pose proof (setr_setr0 _ _ _ _ _ _ _ E1 E2) as E3.
+    exists cs, od, y2. repeat split; auto.
   Qed.
 End PAIR.
 
@@ -1714,11 +1756,12 @@ Section PSOBG.
   Qed.
 End PSOBG.
 
-Lemma is_copy_pair_spec t d s1 : is_copy_pair t = Some (d, s1) -> t = Seq (CopyPos d s1) (CopyFit d s1).
+Lemma is_copy_pair_spec t d s1 : is_copy_pair t = Some (d, s1) ->
+  t = Seq (CopyPos d s1) (CopyFit d s1) \/ t = Seq (CopyFit d s1) (CopyPos d s1).
 Proof.
-  destruct t; try discriminate. simpl. destruct t1; try discriminate. destruct t2; try discriminate.
-  destruct (ref_eqb d0 d1 && ref_eqb s s0) eqn:E; [|discriminate]. intros H. injection H as <- <-.
-  apply andb_true_iff in E as [E1 E2]. apply ref_eqb_eq in E1, E2. subst. reflexivity.
+  destruct t; try discriminate. simpl. destruct t1; try discriminate; destruct t2; try discriminate;
+    (destruct (ref_eqb d0 d1 && ref_eqb s s0) eqn:E; [|discriminate]); intros H; injection H as <- <-;
+    apply andb_true_iff in E as [E1 E2]; apply ref_eqb_eq in E1, E2; subst; auto.
 Qed.
 
 Section SP0.
@@ -1734,17 +1777,22 @@ Section SP0.
     intros l incur s a a' Hsp cur o x h x' evs o' Hcur HG Hex.
     rewrite <- exec_strip in Hex. unfold ba_special0 in Hsp.
     destruct (is_copy_pair (strip s)) as [[d s1]|] eqn:Ecp.
-    - apply is_copy_pair_spec in Ecp. rewrite Ecp in Hex. injection Hsp as Hsp.
+    - apply is_copy_pair_spec in Ecp.
+      assert (Hpair : alias d s1 = false -> exists cs od x3, getr s1 cur x = Some cs /\ getr d cur x = Some od /\
+                setr d cur {| apos := apos cs; aid := next x; afit := afit cs |} x = Some x3 /\
+                x' = with_next x3 (S (next x)) /\ evs = [] /\ o' = o).
+      { intros Hal. destruct Ecp as [Ecp|Ecp]; rewrite Ecp in Hex; [eapply pair_sem|eapply pair_sem_rev]; eassumption. }
+      clear Hex. injection Hsp as Hsp.
       destruct (ref_eq_dec d Best) as [->|Hd].
       + (* best := copy of s1 *)
         assert (Hal : alias Best s1 = false).
         { unfold assign_best in Hsp. destruct (single s1) eqn:Es; [|discriminate]. destruct s1; try discriminate; reflexivity. }
-        apply pair_sem in Hex as (cs & od & x3 & Hgs & Hgd & Hs & -> & -> & ->); [|exact Hal].
+        destruct (Hpair Hal) as (cs & od & x3 & Hgs & Hgd & Hs & -> & -> & ->).
         simpl in Hs. injection Hs as <-. apply BG_nil, BG_next. eapply BG_assign_best; eassumption.
       + assert (Hsp' : (if alias d s1 then (a, c02 l "copy between possibly identical slots") else assign l d s1 a) = (a', []))
           by (destruct d; try congruence; exact Hsp).
         destruct (alias d s1) eqn:Hal; [discriminate|].
-        apply pair_sem in Hex as (cs & od & x3 & Hgs & Hgd & Hs & -> & -> & ->); [|exact Hal].
+        destruct (Hpair eq_refl) as (cs & od & x3 & Hgs & Hgd & Hs & -> & -> & ->).
         apply BG_nil, BG_next. eapply BG_assign; eassumption.
     - destruct (stmt_eqb (strip s) swap_best) eqn:Esw.
       + apply stmt_eqb_eq in Esw. rewrite Esw in Hex. injection Hsp as Hsp.
